@@ -321,5 +321,10 @@ def run(run_, tier):
     check_implicit_leapfrog(run_, it)
     check_implicit_midpoint(run_, it)
     check_constrained(run_, it)
+    # "for the system's own Hamiltonian": the flows composed above are generated by dh1_dpos / dh2_dmom / dh2_dpos, which must be the
+    # gradients of the system's h1 / h2 (C05 obligations, imported), and h2_flow must be the exact flow (C07 obligations, imported)
+    from . import symla_systems
+    symla_systems.run_cases(run_, "c05_cases", keep=lambda oid: any(k in oid for k in ("dh1_dpos-is-gradient-of-h1", "dh2_dmom-is-gradient-of-h2", "dh2_dpos-is-gradient-of-h2", "h-is-sum")))
+    symla_systems.run_cases(run_, "c07_cases")
     run_.extraction_drops.extend(sorted(it.dropped))
     run_.notes.append(f"paths explored: {it.paths}; solver seconds {it.solver_seconds:.2f}")
